@@ -19,6 +19,7 @@ TABLES = {
     "wsupgrade": dict(test="TestTableWSUpgrade", module="WSUpgradeCheck", pkg="gw", env={}),
     "httppost": dict(test="TestTablePost", module="PostCheck", pkg="gw", env={}),
     "adapter": dict(test="TestTraceAdapter", module="AdapterCheck", pkg="natsx", env={"quick": {"VERIF_NATS_ROUNDS": "3"}, "thorough": {"VERIF_NATS_ROUNDS": "25"}}),
+    "lifehttp": dict(test="TestTableLifeHTTP", module="LifeHTTPCheck", pkg="gw", env={"quick": {"VERIF_LIFEHTTP_ROUNDS": "5"}, "thorough": {"VERIF_LIFEHTTP_ROUNDS": "40"}}),
     "access": dict(test="TestTableAccess", module="AccessCheck", env={}),
     "values": dict(test="TestTableValues", module="ValueCheck", env={}),
     "modeldiff": dict(test="TestTableModelDiff", module="ModelDiffCheck", env={"quick": {"VERIF_DIFF_KEYS": "2"}, "thorough": {"VERIF_DIFF_KEYS": "3"}}),
